@@ -1,5 +1,6 @@
 import ArimModel.Geometry
 import ArimProofs.Tie.C01
+import ArimProofs.Tie.C17
 import ArimProofs.Lemmas.Geometry
 import Mathlib.Tactic.Ring
 import Mathlib.Tactic.LinearCombination
@@ -885,5 +886,54 @@ theorem src_distance_pairwise_metric (x1 y1 z1 x2 y2 z2 : Nat → ℝ) (i j : Na
   · rintro ⟨h1, h2, h3⟩; rw [h1, h2, h3]; ring
 
 end OnSourceDistance
+
+/-! ## On the source: the rotation matrices as translated from `/repo/src/arim/geometry.py` on every run -/
+section OnSourceRotations
+open Arim.Tie.C17
+
+private theorem cs1 (t : ℝ) : Real.cos t * Real.cos t + Real.sin t * Real.sin t = 1 := by
+  have := Real.cos_sq_add_sin_sq t; rw [sq, sq] at this; exact this
+
+/-- **`rotation_matrix_x/y/z(θ)` as written in the source are proper rotations for every real angle** -/
+theorem src_rotation_matrix_x_proper (t : ℝ) :
+    Orthonormal (Src.rotation_matrix_x srcOpsR t) ∧ det (Src.rotation_matrix_x srcOpsR t) = 1 := by
+  rw [tie_rotation_matrix_x]
+  simp only [srcOpsR, Nat.cast_zero, Nat.cast_one]
+  exact ⟨rotX_orthonormal _ _ (cs1 t), rotX_det _ _ (cs1 t)⟩
+
+theorem src_rotation_matrix_y_proper (t : ℝ) :
+    Orthonormal (Src.rotation_matrix_y srcOpsR t) ∧ det (Src.rotation_matrix_y srcOpsR t) = 1 := by
+  rw [tie_rotation_matrix_y]
+  simp only [srcOpsR, Nat.cast_zero, Nat.cast_one]
+  exact ⟨rotY_orthonormal _ _ (cs1 t), rotY_det _ _ (cs1 t)⟩
+
+theorem src_rotation_matrix_z_proper (t : ℝ) :
+    Orthonormal (Src.rotation_matrix_z srcOpsR t) ∧ det (Src.rotation_matrix_z srcOpsR t) = 1 := by
+  rw [tie_rotation_matrix_z]
+  simp only [srcOpsR, Nat.cast_zero, Nat.cast_one]
+  exact ⟨rotZ_orthonormal _ _ (cs1 t), rotZ_det _ _ (cs1 t)⟩
+
+/-- **`rotation_matrix_ypr(yaw, pitch, roll)` as written in the source is a proper rotation for all real angles** -/
+theorem src_rotation_matrix_ypr_proper (y p r : ℝ) :
+    Orthonormal (Src.rotation_matrix_ypr srcOpsR y p r) ∧ det (Src.rotation_matrix_ypr srcOpsR y p r) = 1 := by
+  rw [tie_rotation_matrix_ypr]
+  simp only [srcOpsR, Nat.cast_zero, Nat.cast_one]
+  exact rotYpr_real_proper y p r
+
+/-- hence rotating points by it (about any centre) preserves distances, and it commutes with the cross product -/
+theorem src_rotation_matrix_ypr_isometry (y p r : ℝ) (c c' : P3 ℝ) (centre : Option (P3 ℝ)) :
+    nsq (vsub (rotate c (Src.rotation_matrix_ypr srcOpsR y p r) centre) (rotate c' (Src.rotation_matrix_ypr srcOpsR y p r) centre))
+      = nsq (vsub c c') ∧
+    mulVec (Src.rotation_matrix_ypr srcOpsR y p r) (cross c c')
+      = cross (mulVec (Src.rotation_matrix_ypr srcOpsR y p r) c) (mulVec (Src.rotation_matrix_ypr srcOpsR y p r) c') := by
+  obtain ⟨h, hd⟩ := src_rotation_matrix_ypr_proper y p r
+  exact ⟨rotate_isometry' c c' _ centre h, cross_rotate _ c c' h hd⟩
+
+/-- its transpose is its inverse: `to_gcs ∘ from_gcs = id` with the rotation as basis -/
+theorem src_rotation_matrix_ypr_transpose_orthonormal (y p r : ℝ) :
+    Orthonormal (Src.rotation_matrix_ypr srcOpsR y p r).transpose :=
+  orthonormal_transpose _ (src_rotation_matrix_ypr_proper y p r).1
+
+end OnSourceRotations
 
 end Arim.C17
